@@ -31,11 +31,29 @@ func sameRegion(a, b Region) bool {
 	return a.node == b.node && a.off == b.off && a.n == b.n
 }
 
+// synEqual: both regions have the same concrete length and byte-wise identical terms.
+func (ex *Exec) synEqual(a, b Region) bool {
+	if sameRegion(a, b) {
+		return true
+	}
+	if !a.n.isConst || !b.n.isConst || a.n.cv != b.n.cv || a.n.cv > 4096 {
+		return false
+	}
+	c := ex.ctx
+	for i := uint64(0); i < a.n.cv; i++ {
+		it := c64(c, i)
+		if ex.regAt(a, it) != ex.regAt(b, it) {
+			return false
+		}
+	}
+	return true
+}
+
 // regionDiff returns a term that is true only if the regions differ (Skolemised):
 // len differs, or a fresh index d < len has different bytes.
 func (ex *Exec) regionDiff(a, b Region) *Term {
 	c := ex.ctx
-	if sameRegion(a, b) {
+	if ex.synEqual(a, b) {
 		return c.Bool(false)
 	}
 	lenNe := c.Not(c.Eq(a.n, b.n))
@@ -61,7 +79,7 @@ func (ex *Exec) applyHash(fn string, outBits int, ideal bool, parts ...Region) *
 		if len(prev.parts) == len(parts) {
 			same := true
 			for k := range parts {
-				if !sameRegion(prev.parts[k], parts[k]) {
+				if !ex.synEqual(prev.parts[k], parts[k]) {
 					same = false
 					break
 				}
